@@ -1949,16 +1949,19 @@ def _kuhn_munkres(vm, cal, args):
     data = m.fields[2].items
     w = [[data[r * cols + c] for c in range(cols)] for r in range(rows)]
     injections = list(itertools.permutations(range(cols), rows))
-    k = vm.choose_n(len(injections), "kuhn_munkres optimum")
-    sol = injections[k]
 
     def total(inj):
         t = z3.BitVecVal(0, 128)
         for r, c in enumerate(inj):
             t = t + z3.SignExt(64, w[r][c].e)
         return t
-    mine = total(sol)
-    vm.assume(z3.And([mine >= total(o) for o in injections if o != sol] + [z3.BoolVal(True)]))
+    totals = [total(o) for o in injections]
+    # one condition per injection: "it is optimal". Several may hold at once (ties): every feasible one is explored,
+    # infeasible ones are pruned by a single solver query instead of a dead path.
+    conds = [z3.And([totals[i] >= t for j, t in enumerate(totals) if j != i] + [z3.BoolVal(True)]) for i in range(len(injections))]
+    k = vm.choose(conds, "kuhn_munkres optimum")
+    sol = injections[k]
+    mine = totals[k]
     return (I(z3.Extract(63, 0, mine), True), VecV(tuple(usize(c) for c in sol)))
 
 
